@@ -5,6 +5,7 @@ import (
 	"fmt"
 	"math"
 	"os"
+	"os/user"
 	"path/filepath"
 	"sort"
 	"strconv"
@@ -48,6 +49,8 @@ type SensorState struct {
 	Spec *SensorSpec
 	Path string // file holding the value (also for cmd sensors: the script cats it)
 	Exe  string
+	// ConfigPath is what the configuration says (differs from Path for home-relative file sensors: "~/...")
+	ConfigPath string
 }
 
 type pendingRestore struct {
@@ -76,6 +79,7 @@ type World struct {
 	// MemberYields: park at the curve.member yield point (between the member evaluations of a function curve)
 	MemberYields bool
 	restore      *pendingRestore
+	homeScratch  string                   // scratch directory below the home directory (home-relative file sensors)
 	curExecByG   map[uint64]*kernel.Event // the command each goroutine is about to start
 	curExecMu    sync.Mutex
 	latCount     map[string]int
@@ -178,6 +182,18 @@ func New(sc *Scenario, k *kernel.Kernel) (*World, error) {
 			st.Path = filepath.Join(w.hwRoot, sc.Chips[s.Chip].Dir, fmt.Sprintf("temp%d_input", s.TempN))
 		case "file":
 			st.Path = filepath.Join(dir, "files", s.ID+".temp")
+			if s.HomeRelative {
+				// fan2go expands "~" with os/user.Current().HomeDir
+				if u, err := user.Current(); err == nil && u.HomeDir != "" {
+					rel := filepath.Join(".verif-scratch", filepath.Base(dir))
+					if err := os.MkdirAll(filepath.Join(u.HomeDir, rel), 0755); err == nil {
+						w.homeScratch = filepath.Join(u.HomeDir, rel)
+						k.StripPrefix2 = w.homeScratch + "/"
+						st.Path = filepath.Join(w.homeScratch, s.ID+".temp")
+						st.ConfigPath = "~/" + filepath.Join(rel, s.ID+".temp")
+					}
+				}
+			}
 		case "cmd":
 			st.Path = filepath.Join(dir, "files", s.ID+".temp")
 			st.Exe = filepath.Join(dir, "scripts", s.ID+"_get.sh")
@@ -261,7 +277,13 @@ func New(sc *Scenario, k *kernel.Kernel) (*World, error) {
 
 func (w *World) DBPath() string { return filepath.Join(w.Dir, "db", "fan2go.db") }
 
-func (w *World) Cleanup() { _ = os.RemoveAll(w.Dir) }
+func (w *World) Cleanup() {
+	_ = os.RemoveAll(w.Dir)
+	if w.homeScratch != "" {
+		_ = os.RemoveAll(w.homeScratch)
+		_ = os.Remove(filepath.Dir(w.homeScratch)) // the parent, if it is empty now
+	}
+}
 
 func writeFile(path, content string) {
 	if err := os.WriteFile(path, []byte(content), 0644); err != nil {
